@@ -724,6 +724,29 @@ func socksComponent(r *hx.Run) {
 		}
 		add(cls, L, L, "ok:"+hs, d([]byte{a}, first)+","+d([]byte{b}, gap), "a0", "-", i%2 == 0)
 	}
+	split := func(a, b byte) {
+		cls := "split2/other"
+		if a == 5 && b == 0 {
+			cls = "split2/0500"
+		} else if a == 5 {
+			cls = "split2/ver-only"
+		} else if b == 0 {
+			cls = "split2/method-only"
+		}
+		add(cls, L, L, "ok:"+hs, d([]byte{a}, "0")+","+d([]byte{b}, "3000"), "a0", "-", (int(a)+int(b))%16 == 0)
+	}
+	if thorough {
+		for a := 0; a < 256; a++ {
+			for b := 0; b < 256; b++ {
+				split(byte(a), byte(b))
+			}
+		}
+	} else {
+		for x := 0; x < 256; x++ {
+			split(byte(x), 0)
+			split(5, byte(x))
+		}
+	}
 	// C. extra bytes, garbage, flood, drip feed
 	nExtra := 30
 	if thorough {
@@ -787,6 +810,8 @@ func socksComponent(r *hx.Run) {
 		// deadlines are per Read call: late segments
 		add("late/reply-at-0.5T", 5*T, T, "ok:"+hs, d([]byte{5, 0}, us(0.5)), "a0", "-", true)
 		add("late/reply-at-2T", 5*T, T, "ok:"+hs, d([]byte{5, 0}, us(2)), "a0", "-", true)
+		add("late/reply-at-1.5T", 5*T, T, "ok:"+hs, d([]byte{5, 0}, us(1.5)), "a0", "-", true)
+		add("late/0.5T+1.5T", 5*T, T, "ok:"+hs, d([]byte{5}, us(0.5))+","+d([]byte{0}, us(1.5)), "a0", "-", true)
 		add("late/0.5T+0.5T", 5*T, T, "ok:"+hs, d([]byte{5}, us(0.5))+","+d([]byte{0}, us(0.5)), "a0", "-", true)
 		add("late/0.5T+2T", 5*T, T, "ok:"+hs, d([]byte{5}, us(0.5))+","+d([]byte{0}, us(2)), "a0", "-", true)
 		add("late/close-at-2T", 5*T, T, "ok:"+hs, "e@"+us(2), "a0", "-", true)
